@@ -20,6 +20,6 @@ Next == Len(qs) < L /\ \E a, b \in 1..N :
 Spec == Init /\ [][Next]_<<edges, memo, qs>>
 MemoSound == \A k \in DOMAIN memo : memo[k] = AnswerAM(edges, N, k[1], k[2])
 Symmetric == \A a, b \in 1..N : AnswerAM(edges, N, a, b) = AnswerAM(edges, N, b, a)
-Predicted == qs = <<>> => \A i \in DOMAIN Family : Collide(Family[i].limbs)
+Predicted == qs = <<>> => \A i \in DOMAIN Family : Family[i].fam = "cantor" => Collide(Family[i].limbs)
 Emit == Len(qs) = L => EmitScenario([kind |-> "graph", n |-> N, edges |-> SetToSeq({<<e[1] - 1, e[2] - 1>> : e \in edges}), queries |-> qs \o [i \in DOMAIN qs |-> <<"var", qs[i][2], qs[i][3]>>]])
 =============================================================================
